@@ -17,7 +17,7 @@ import CalVerif.Spec.MetadataEnc
       `xlsxd22fix R=<rels> <ev> …`           → the reader between 60648c6 and 4dbff9e (finding C16-b: a foreign workbookPr in extLst resets the flag)
       `ods <ev> <ev> …`                      → model of `ods.rs parse_content` (metadata part)
     rels  = `<hex id>=<hex target>,…` (empty: `R=`)
-    ev    = `s:<name>:<k>=<hex v>,…|-` | `e:<name>` | `t:<hex>` | `o`   (`:` inside names written `.`; harness `xlsxw::ev_wire`)
+    ev    = `s:<name>:<k>=<hex v>,…|-` | `e:<name>` | `t:<hex>` | `c:<hex>` (CDATA) | `o`   (`:` inside names written `.`; harness `xlsxw::ev_wire`)
     reply = `ok d=<0|1> S=<hex name>:<Type>:<Vis>[:<hex path>],… N=<hex name>=<hex value>,…` | `err:<text>` | `panic` | `fuel`
     The formula decoders are C14's models (`Ptg.definedNameXls`, `Ptg.parseFormulaXlsb`), plugged into the
     parameters of the metadata model. -/
@@ -93,6 +93,7 @@ def parseEv (w : String) : Option Ev :=
   | ["s", n, a] => do pure (.start (unDot n) (← parseAttrs a))
   | ["e", n] => some (.end_ (unDot n))
   | ["t", h] => do pure (.text (← strOfHex h))
+  | ["c", h] => do pure (.cdata (← strOfHex h))
   | ["o"] => some .other
   | _ => none
 
